@@ -25,10 +25,14 @@ ORACLES = {
     "C11.export": "export(other path) from any working directory produces an identical, loadable copy",
     "C11.kill": "thorough/sampled: a child process replaying the history and SIGKILLed at line event i of the last operation leaves exactly "
                 "the file the in-process snapshot i predicted, and it passes the snapshot oracle",
+    "C11.closed_equals_memory(exit)": "normal-exit variant: the same kind of history in a fresh interpreter that exits normally, with filters "
+                                      "also abandoned without close() and the file re-opened - after the process is gone the file equals the "
+                                      "in-memory export of the history",
     "C11.no_exception": "no operation raises",
 }
-RULE = ("Histories: create BloomFilterOnDisk(geometry est 1..40 x fpr list, default/md5/salted hash) at a generated location (relative "
-        "name in cwd, relative path with a sub-directory, absolute path with cwd elsewhere, Path object), then 2-25 ops: add(key from a pool "
+RULE = ("Histories: create BloomFilterOnDisk(geometry est 1..40 (1/16: 600..60000) x fpr list, default/md5/salted hash) at a generated location (relative "
+        "name in cwd, relative path with a sub-directory, absolute path with cwd elsewhere, Path object, a name that goes through a "
+        "symlinked directory and `..`), then 2-25 ops: add(key from a pool "
         "of 2-8), close+reopen (location style and working directory re-drawn each time), export(other path, relative or absolute), "
         "clear. Fault model: process kill (no torn pages, no power loss). Enumeration: a sys.settrace line tracer restricted to library "
         "frames snapshots the backing file at every executed line of every add/close/export. A sampled fraction of histories (1/6 quick, "
@@ -54,7 +58,7 @@ def budget(tier):
 
 
 def strategy(tier):
-    loc = st.sampled_from(["rel", "sub", "abs", "path"])
+    loc = st.sampled_from(["rel", "sub", "abs", "path", "sym"])
     ki = st.integers(0, 7)
     op = st.one_of(st.tuples(st.just("add"), ki), st.tuples(st.just("add"), ki), st.tuples(st.just("add"), ki),
                    st.tuples(st.just("reopen"), loc, st.booleans()),
@@ -107,14 +111,27 @@ class World:
         self.root = os.path.realpath(root)
         os.makedirs(os.path.join(self.root, "sub"), exist_ok=True)
         os.makedirs(os.path.join(self.root, "elsewhere"), exist_ok=True)
+        os.makedirs(os.path.join(self.root, "real", "inner"), exist_ok=True)
+        if not os.path.lexists(os.path.join(self.root, "link")):
+            os.symlink(os.path.join(self.root, "real", "inner"), os.path.join(self.root, "link"))
         self.fileabs = None
 
     def place(self, loc):
         """choose the real location of the backing file from the creation style"""
-        self.fileabs = os.path.join(self.root, "sub", "f.blm") if loc == "sub" else os.path.join(self.root, "f.blm")
+        self.sym = loc == "sym"
+        if loc == "sym":
+            # named as link/../f.blm where link -> real/inner: the operating system follows the link first, so this is real/f.blm
+            self.fileabs = os.path.join(self.root, "real", "f.blm")
+        else:
+            self.fileabs = os.path.join(self.root, "sub", "f.blm") if loc == "sub" else os.path.join(self.root, "f.blm")
 
     def arg(self, style, elsewhere):
         """(cwd to switch to, argument to hand to the library) for the backing file"""
+        if style == "sym" and getattr(self, "sym", False):
+            cwd = os.path.join(self.root, "elsewhere") if elsewhere else self.root
+            return cwd, (os.path.join("..", "link", "..", "f.blm") if elsewhere else os.path.join("link", "..", "f.blm"))
+        if style == "sym":
+            style = "rel"
         if style in ("rel", "sub") and not elsewhere:
             cwd = self.root
             return cwd, os.path.relpath(self.fileabs, cwd)
@@ -294,6 +311,55 @@ def replay(case, root, ctx=None, kill_at=None, collect=None):
     return feats, nsnap[0], digests, geo
 
 
+def _normal_exit_variant(case, ctx, root):
+    """The same kind of history in a FRESH interpreter that exits normally (finalizers and exit handlers run): filters are also
+    abandoned without close() ('drop', handled by __del__ per the documentation) and the file re-opened; after the process is gone
+    the file must be the in-memory export of the same history."""
+    import json
+    import subprocess
+
+    from probables import BloomFilter
+
+    os.makedirs(root, exist_ok=True)
+    path = os.path.join(root, "f.blm")
+    ops = []
+    for i, op in enumerate(case["ops"]):
+        if op[0] == "add":
+            ops.append(["add", op[1]])
+        elif op[0] == "reopen":
+            ops.append(["drop"] if i % 2 == 0 else ["reopen"])
+        elif op[0] == "clear":
+            ops.append(["clear"])
+        elif op[0] == "setcount":
+            ops.append(["setcount", op[1]])
+    if not any(o[0] == "drop" for o in ops):
+        ops.insert(len(ops) // 2, ["drop"])
+    spec = {"est": min(case["est"], 200), "fpr": case["fpr"], "hash": case["hash"], "pool": case["pool"], "path": path, "ops": ops}
+    cfile = os.path.join(root, "case.json")
+    with open(cfile, "w") as f:
+        json.dump(spec, f)
+    here = os.path.dirname(os.path.dirname(os.path.abspath(__file__)))
+    r = subprocess.run([sys.executable, "-B", os.path.join(here, "vlib", "c11_child.py"), cfile], capture_output=True, text=True,
+                       env=dict(os.environ, VERIF_REPO=REPO), timeout=300)
+    ctx.check("C11.no_exception", r.returncode == 0, lambda: f"history in a fresh interpreter exited with {r.returncode}: {r.stderr[-300:]}")
+    hf = hash_by_name(case["hash"])
+    pool = [dk(k) for k in case["pool"]]
+    ref = BloomFilter(spec["est"], spec["fpr"], hash_function=hf)
+    for op in ops:
+        if op[0] == "add":
+            ref.add(pool[op[1] % len(pool)])
+        elif op[0] == "clear":
+            ref.clear()
+        elif op[0] == "setcount":
+            ref.elements_added = op[1]
+    raw = read_file(ctx, path, "after the process exited")
+    want = bytes(ref)
+    ctx.check("C11.closed_equals_memory", raw == want,
+              lambda: f"after a normal interpreter exit the file differs from the in-memory export of the same history: "
+                      f"footer {FOOT.unpack(raw[-20:]) if len(raw) >= 20 else raw!r} vs {FOOT.unpack(want[-20:])} (ops {ops})")
+    ctx.feat("normal_exit_children")
+
+
 def run_case(case, ctx):
     root = ctx.tmpdir()
     collect = []
@@ -319,12 +385,15 @@ def run_case(case, ctx):
             _, status = os.waitpid(pid, 0)
             killed = os.WIFSIGNALED(status) and os.WTERMSIG(status) == signal.SIGKILL
             ctx.check("C11.kill", killed, f"child for line event {i} was not killed (status {status})")
-            loc = os.path.join(os.path.realpath(kroot), "sub" if case["loc"] == "sub" else "", "f.blm")
+            loc = os.path.join(os.path.realpath(kroot), {"sub": "sub", "sym": "real"}.get(case["loc"], ""), "f.blm")
             ctx.check("C11.kill", os.path.exists(loc), lambda: f"after a real SIGKILL at line event {i} there is no backing file at {loc}")
             raw = open(loc, "rb").read()
             ctx.check("C11.kill", raw == collect[i], lambda: f"file left by a real SIGKILL at line event {i} differs from the in-process snapshot")
             ctx.feat("real_sigkills")
         feats.add("kill_variant")
+    if case["kill"] == 1 or (thorough and case["kill"] == 3):
+        _normal_exit_variant(case, ctx, os.path.join(root, "exitrun"))
+        feats.add("normal_exit_variant")
     for f in feats:
         ctx.feat(f)
     ctx.feat("snapshots", nsnap)
